@@ -55,7 +55,21 @@ func cloneData(d sim.TapeData) sim.TapeData {
 
 // Shrink minimises the tapes of a failing run while the same violation class
 // (property, oracle, finding key) persists.
-func Shrink(t *testing.T, sc *Scenario, tier string, start RunResult, maxExecs int, maxWall time.Duration) (RunResult, int) {
+// hasViolation reports whether r shows a violation of the same class as v
+// (as its primary or as one of its soft violations).
+func hasViolation(r RunResult, v *Violation) bool {
+	if sameViolation(r.Violation, v) {
+		return true
+	}
+	for _, s := range r.Soft {
+		if sameViolation(s, v) {
+			return true
+		}
+	}
+	return false
+}
+
+func Shrink(t *testing.T, sc *Scenario, tier string, start RunResult, target *Violation, maxExecs int, maxWall time.Duration) (RunResult, int) {
 	best := start
 	best.Tapes = cloneData(start.Tapes)
 	execs := 0
@@ -66,7 +80,7 @@ func Shrink(t *testing.T, sc *Scenario, tier string, start RunResult, maxExecs i
 		}
 		execs++
 		r := ExecRun(t, sc, sim.ReplayTapes(d), tier, false)
-		if r.HarnessErr == "" && sameViolation(r.Violation, start.Violation) {
+		if r.HarnessErr == "" && hasViolation(r, target) {
 			// r.Tapes holds the realised values (canonical form)
 			r.Tapes.Gen = trimZeros(r.Tapes.Gen)
 			r.Tapes.Sched = trimZeros(r.Tapes.Sched)
